@@ -1,5 +1,6 @@
 import Webp.Go.Canon
 import Webp.Impl.VP8DecFilter
+import Webp.Impl.VP8DecEdges
 /-
   Line-protocol handler for the VP8 decoder's loop-filter parameters (C04: `Webp.Impl.VP8DecFilter`).
 
@@ -7,6 +8,10 @@ import Webp.Impl.VP8DecFilter
         `precomputeFilterStrengths` on a fresh decoder whose headers hold these values
         (`filterType` as `parseFilterHeader` sets it)
         → `ok <limit>,<ilevel>,<hev>,<inner>;…` for (segment 0, i4x4 0), (0, 1), (1, 0), … (3, 1)
+
+    dofilter <filterType> <limit> <ilevel> <hev> <inner> <mbX> <mbY> <yStride> <uvStride> <y> <u> <v>
+        `doFilter(mbX, mbY)` (`Webp.Impl.VP8DecEdges.doFilter`) on the three cache planes (hex)
+        → `ok <y> <u> <v>` (each `x:<hex>` up to 4096 bytes, else `d:<len>:<fnv1a>`)
 -/
 namespace Driver.VP8Dec
 open Webp.Impl.VP8DecFilter
@@ -35,6 +40,23 @@ def handle (op : String) (args : List String) : Option String :=
     let tab := precompute seg hdr (filterTypeOf level simple) (fun _ _ => {})
     let cells := (List.range 4).flatMap fun s => [showInfo (tab s false), showInfo (tab s true)]
     some ("ok " ++ ";".intercalate cells)
+  | "dofilter", [ft, limit, ilevel, hev, inner, mbX, mbY, ybps, uvbps, y, u, v] => do
+    let ft ← ft.toNat?
+    let limit ← limit.toNat?
+    let ilevel ← ilevel.toNat?
+    let hev ← hev.toNat?
+    let inner ← parseBool inner
+    let mbX ← mbX.toNat?
+    let mbY ← mbY.toNat?
+    let ybps ← ybps.toNat?
+    let uvbps ← uvbps.toNat?
+    let y ← Webp.Go.hexToByteArray y
+    let u ← Webp.Go.hexToByteArray u
+    let v ← Webp.Go.hexToByteArray v
+    let r := Webp.Impl.VP8DecEdges.doFilter ft { limit, ilevel, hevT := hev, inner } mbX mbY ybps uvbps y u v
+    let out (b : ByteArray) : String :=
+      if b.size > 4096 then "d:" ++ Webp.Go.digest b.toList else "x:" ++ Webp.Go.toHex b.toList
+    some s!"ok {out r.1} {out r.2.1} {out r.2.2}"
   | _, _ => none
 
 end Driver.VP8Dec
